@@ -138,3 +138,35 @@ func ParamIndex(info *types.Info, fd *ast.FuncDecl, obj types.Object) int {
 	}
 	return -2
 }
+
+// OriginBefore is Origin for straight-line code: a multiply assigned variable
+// resolves to its last definition that textually precedes the use, provided no
+// definition of it lies inside a loop that also contains the use.
+func OriginBefore(info *types.Info, asg map[types.Object][]Assign, e ast.Expr) ast.Expr {
+	for i := 0; i < 32; i++ {
+		e = ast.Unparen(e)
+		id, ok := e.(*ast.Ident)
+		if !ok {
+			return e
+		}
+		o := info.Uses[id]
+		if o == nil {
+			return e
+		}
+		var best *Assign
+		for k := range asg[o] {
+			a := &asg[o][k]
+			if a.Pos < id.Pos() && (best == nil || a.Pos > best.Pos) {
+				best = a
+			}
+		}
+		if best == nil || best.RHS == nil {
+			return e
+		}
+		if _, isRange := best.Node.(*ast.RangeStmt); isRange {
+			return e
+		}
+		e = best.RHS
+	}
+	return e
+}
